@@ -6,6 +6,9 @@
 (*    Go type class, $ref wrappers emit $ref only) satisfies the first-trip contract,    *)
 (*    except on the listed design-level deviations (which MC_C03_pinned.cfg must still   *)
 (*    reproduce -- model drift guard); the model's second trip is stable;                *)
+(*  - receivers (DocModel!RecvL1): under the code's policy "replace" the receiver holds  *)
+(*    exactly the document under test after every history; under "inplace" it does not   *)
+(*    (MC_C03_pinned_recv.cfg must find the counterexample);                             *)
 (*  - every kind is reachable: hosting a marker at the kind's site yields a document     *)
 (*    that contains it; every catalogue field has a distinct name within its kind.       *)
 EXTENDS Gen_C03
@@ -28,6 +31,10 @@ KnownDeviation(cc) == NullAny(cc) \/ V2EmptyScopes(cc) \/ BigRounded(cc) \/ Date
 L2Strict == Between(Norm(ver, gdoc), L2RT(ver, gdoc), gdoc)
 L2ImpliesL1 == L2Strict \/ KnownDeviation(gcase)
 L2Idem == L2RT(ver, L2RT(ver, gdoc)) = L2RT(ver, gdoc)
+
+RecvReplaceL1 == ghist = NoHist \/ IsKindHist(ghist) \/ RecvL1("replace", ver, ghist.prior, gdoc)
+RecvInplaceL1 == ghist = NoHist \/ IsKindHist(ghist) \/ RecvL1("inplace", ver, ghist.prior, gdoc)
+ASSUME \A v \in {2, 3} : \A n \in PriorNames(v) : PriorParses(n) => IsNormal(v, PriorDoc(v, n))
 
 Mark == Sv("MARK")
 RECURSIVE Occurs(_, _)
